@@ -8,6 +8,7 @@ import numpy as np
 
 import vlib
 from props import c08_stub
+from props.c01 import pre  # noqa: F401  (Gen/Pipeline.lean: getRZBoundary guard and copies)
 
 
 def decode_next(t, x, j):
